@@ -9,6 +9,7 @@ import (
 	"bytes"
 	"encoding/binary"
 	"fmt"
+	"math/big"
 	"os"
 	"strings"
 	"testing"
@@ -79,6 +80,64 @@ func init() {
 	}
 }
 
+// hostileKeys are compressed encodings 02/03 || x whose x is not a canonical
+// field element or not a curve abscissa: x = P + k for the first small k with
+// k^3 - 3k + b a quadratic residue mod P (so that x mod P IS on the curve), and
+// x = P, 2^256-1, 0, P-1, plus an x in range that is not on the curve.
+var hostileKeys [][]byte
+
+func init() {
+	P := crypto.DefaultParams.P
+	B := crypto.DefaultParams.B
+	onCurveModP := func(x *big.Int) bool {
+		y2 := new(big.Int).Exp(x, big.NewInt(3), P)
+		y2.Sub(y2, new(big.Int).Mul(big.NewInt(3), x))
+		y2.Add(y2, B)
+		y2.Mod(y2, P)
+		return y2.Sign() == 0 || big.Jacobi(y2, P) == 1
+	}
+	add := func(x *big.Int) {
+		if x.BitLen() > 256 {
+			return
+		}
+		for _, prefix := range []byte{2, 3} {
+			k := make([]byte, 33)
+			k[0] = prefix
+			x.FillBytes(k[1:])
+			hostileKeys = append(hostileKeys, k)
+		}
+	}
+	found, off := 0, 0
+	for k := int64(0); found < 3; k++ { // residues: x = P + k aliases a curve point
+		if onCurveModP(big.NewInt(k)) {
+			add(new(big.Int).Add(P, big.NewInt(k)))
+			found++
+		}
+	}
+	for k := int64(0); off < 1; k++ { // a non-residue above P and one below
+		if !onCurveModP(big.NewInt(k)) {
+			add(new(big.Int).Add(P, big.NewInt(k)))
+			add(big.NewInt(k))
+			off++
+		}
+	}
+	add(new(big.Int).Set(P))
+	add(new(big.Int).Sub(new(big.Int).Lsh(big.NewInt(1), 256), big.NewInt(1)))
+	add(big.NewInt(0))
+	add(new(big.Int).Sub(P, big.NewInt(1)))
+}
+
+// keyAt indexes honest keys first, then the hostile ones.
+func keyAt(i int) []byte {
+	if i < len(pubKeys) {
+		return pubKeys[i]
+	}
+	return hostileKeys[(i-len(pubKeys))%len(hostileKeys)]
+}
+
+func stdCodeKey(k []byte) []byte     { return append(append([]byte{33}, k...), 0xAC) }
+func schnorrCodeKey(k []byte) []byte { return append([]byte{0x51, 33}, k...) }
+
 func stdCode(i int) []byte { return append(append([]byte{33}, pubKeys[i%len(pubKeys)]...), 0xAC) }
 func schnorrCode(i int) []byte {
 	return append([]byte{0x51, 33}, pubKeys[i%len(pubKeys)]...)
@@ -98,7 +157,19 @@ func multiCode(mByte []byte, n int, nByte []byte, term []byte) []byte {
 // byte edits) at lengths around 23/35/37/71, and raw bytes.
 func genCode(t *rapid.T) []byte {
 	var c []byte
-	switch rapid.IntRange(0, 9).Draw(t, "codekind") {
+	switch rapid.IntRange(0, 12).Draw(t, "codekind") {
+	case 10: // schnorr script over a non-canonical / off-curve key
+		c = schnorrCodeKey(hostileKeys[rapid.IntRange(0, len(hostileKeys)-1).Draw(t, "hk")])
+	case 11: // standard script over such a key
+		c = stdCodeKey(hostileKeys[rapid.IntRange(0, len(hostileKeys)-1).Draw(t, "hk")])
+	case 12: // well-formed m-of-n script whose slots mix honest and hostile keys
+		n := rapid.IntRange(2, 4).Draw(t, "n")
+		c = []byte{byte(0x50 + rapid.IntRange(1, n).Draw(t, "m"))}
+		for i := 0; i < n; i++ {
+			c = append(c, 33)
+			c = append(c, keyAt(rapid.IntRange(0, len(pubKeys)+len(hostileKeys)-1).Draw(t, "slotkey"))...)
+		}
+		c = append(c, byte(0x50+n), rapid.SampledFrom([]byte{0xAE, 0xAF}).Draw(t, "term"))
 	case 0:
 		c = stdCode(rapid.IntRange(0, 7).Draw(t, "k"))
 	case 1:
@@ -168,7 +239,40 @@ func genCode(t *rapid.T) []byte {
 }
 
 func genParam(t *rapid.T) []byte {
-	switch rapid.IntRange(0, 4).Draw(t, "paramkind") {
+	switch rapid.IntRange(0, 6).Draw(t, "paramkind") {
+	case 5: // signature-shaped with boundary r and s: zero, small, P, N, 2^256-1
+		edge := func(label string) []byte {
+			v := make([]byte, 32)
+			switch rapid.IntRange(0, 5).Draw(t, label) {
+			case 0:
+			case 1:
+				v[31] = 1
+			case 2:
+				crypto.DefaultParams.P.FillBytes(v)
+			case 3:
+				crypto.DefaultParams.N.FillBytes(v)
+			case 4:
+				for i := range v {
+					v[i] = 0xff
+				}
+			default:
+				new(big.Int).Sub(crypto.DefaultParams.N, big.NewInt(1)).FillBytes(v)
+			}
+			return v
+		}
+		p := append(edge("r"), edge("s")...)
+		switch rapid.IntRange(0, 3).Draw(t, "sigshape") {
+		case 0: // bare 64 bytes (schnorr)
+		case 1: // length-prefixed (standard)
+			p = append([]byte{0x40}, p...)
+		case 2: // two chunks (multisig)
+			p = append(append([]byte{0x40}, p...), append([]byte{0x40}, p...)...)
+		default:
+			p = append(p, rapid.SliceOfN(rapid.Byte(), 1, 70).Draw(t, "tail")...)
+		}
+		return p
+	case 6: // all zero, 64 or more bytes
+		return make([]byte, rapid.SampledFrom([]int{64, 65, 66, 128, 130}).Draw(t, "zlen"))
 	case 0:
 		l := rapid.SampledFrom([]int{0, 1, 32, 63, 64, 65, 66, 129, 130, 131, 195}).Draw(t, "plen")
 		return rapid.SliceOfN(rapid.Byte(), l, l).Draw(t, "param")
@@ -285,6 +389,10 @@ func FuzzScript(f *testing.F) {
 	f.Add(multiCode([]byte{1, 1}, 2, []byte{1}, nil), []byte{}, []byte("x"))
 	f.Add(multiCode([]byte{2, 0, 1}, 2, []byte{2}, nil), []byte{}, []byte("x"))
 	f.Add([]byte{}, []byte{}, []byte{})
+	for _, k := range hostileKeys {
+		f.Add(schnorrCodeKey(k), make([]byte, 64), []byte("d"))
+		f.Add(stdCodeKey(k), make([]byte, 65), []byte("d"))
+	}
 	f.Fuzz(func(t *testing.T, code, param, data []byte) {
 		if len(code) > 2000 || len(param) > 4000 || len(data) > 200 {
 			return
